@@ -335,6 +335,7 @@ func (sc *c18Scenario) Run(s *simrt.Sim) {
 			case "CtxCancelled", "CtxCancelledMidChain":
 				ctx, cancel := context.WithCancel(context.Background())
 				defer cancel()
+				s.Fault("request-context-cancelled")
 				if verb == "CtxCancelled" {
 					cancel()
 				} else {
@@ -518,6 +519,7 @@ func (sc *c18Scenario) Run(s *simrt.Sim) {
 						got = append(got, e)
 					}
 					sc.probes["redirect-followed"]++
+					s.Fault("redirect")
 					if fmt.Sprint(got) != fmt.Sprint(want) {
 						add("chain", "chain-on-redirect-hop", fmt.Sprintf("step %d %s, first hop answered with a redirect: call log %v, want %v (the chain once before every hop the transport sees)", si, st.Verb, log, want))
 					}
@@ -549,6 +551,7 @@ func (sc *c18Scenario) Run(s *simrt.Sim) {
 						}
 					}
 					sc.probes["network-failure-behind-the-chain"]++
+					s.Fault("network-failure:" + sc.ErrKind)
 					if fmt.Sprint(gotIcs) != fmt.Sprint(append([]string{}, want...)) && !(len(gotIcs) == 0 && len(want) == 0) {
 						add("chain", "chain-count-on-network-failure", fmt.Sprintf("step %d %s network failure %v: call log %v, want interceptors %v once each", si, st.Verb, c18ErrOfKind(sc.ErrKind), log, want))
 					}
@@ -611,6 +614,7 @@ func (sc *c18Scenario) Run(s *simrt.Sim) {
 					}
 				} else {
 					sc.probes["failing-interceptor-position-enumerated"]++
+					s.Fault("interceptor-returns-error")
 					if nTransport != 0 {
 						add("abort", "transport-called-after-interceptor-error", ctx)
 					}
@@ -654,6 +658,7 @@ func (sc *c18Scenario) Run(s *simrt.Sim) {
 					got = append(got, e)
 				}
 				sc.probes["request-after-a-panicking-interceptor"]++
+				s.Fault("interceptor-panics")
 				if fmt.Sprint(got) != fmt.Sprint(want) || rerr != nil {
 					add("chain", "chain-after-a-recovered-interceptor-panic", fmt.Sprintf("step %d %s: the previous request's first interceptor panicked (the caller recovered); this request's call log is %v (Err=%v), want %v", si, st.Verb, log, rerr, want))
 				}
